@@ -203,8 +203,12 @@ class _ReadSourceGenerator:
                     prev_was_bits = True
 
                 if bits_remaining == 0 or prev_bits_type != field_type:
-                    bits_remaining = (size * 8) - field.bits
+                    # This field starts a new storage unit
+                    prev_bits_type = field_type
+                    bits_remaining = size * 8
                     bits_rollover = True
+
+                bits_remaining -= field.bits
 
                 yield from flush()
                 yield from align_to_field(field)
